@@ -85,7 +85,7 @@ func genClientHSCase(t *rapid.T) ClientHSCase {
 		c.Header = map[string][]string{}
 		n := rapid.IntRange(1, 3).Draw(t, "nheader")
 		for i := 0; i < n; i++ {
-			name := rapid.SampledFrom([]string{"Origin", "Cookie", "X-Custom", "Authorization", "User-Agent", "Host", "Sec-Websocket-Protocol", "Upgrade", "Connection", "Sec-Websocket-Key", "Sec-Websocket-Version", "Sec-Websocket-Extensions"}).Draw(t, "hname")
+			name := rapid.SampledFrom([]string{"Origin", "Cookie", "X-Custom", "Authorization", "User-Agent", "Host", "Sec-Websocket-Protocol", "Upgrade", "Connection", "Sec-Websocket-Key", "Sec-Websocket-Version", "Sec-Websocket-Extensions", "upgrade", "connection", "CONNECTION"}).Draw(t, "hname")
 			if i > 0 || rapid.IntRange(0, 2).Draw(t, "benign") > 0 {
 				name = rapid.SampledFrom([]string{"Origin", "Cookie", "X-Custom", "Authorization", "User-Agent", "Host", "Sec-Websocket-Protocol"}).Draw(t, "hname_benign")
 			}
@@ -239,6 +239,9 @@ func checkC14(c ClientHSCase, o *Obs) error {
 			if n == 1 {
 				key1 = k
 				return bytes.ReplaceAll([]byte(okHandshake), []byte("$ACCEPT"), []byte(wsref.AcceptKey(k)))
+			}
+			if n >= 3 {
+				return []byte("HTTP/1.1 403 Forbidden\r\nContent-Length: 1500\r\n\r\n" + strings.Repeat("z", 1500))
 			}
 			key2 = k
 			sentReply, sentBody = buildReply(c.Reply, k, key1, c.Compress)
@@ -402,8 +405,17 @@ func checkC14(c ClientHSCase, o *Obs) error {
 				return fmt.Errorf("bad reply: response header %s: %s not reported (got %q)", k, v, resp2.Header.Values(k))
 			}
 		}
+		// the response belongs to the caller: another failed dial in between
+		// must not change it
+		keepBody := append([]byte(nil), sentBody...)
+		if len(keepBody) > 0 && len(c.Header)%2 == 0 {
+			if c3, _, e3 := dial(); c3 != nil || e3 == nil {
+				return errors.New("third dial (scripted 403) returned a connection")
+			}
+			o.Class("another_failed_dial_before_the_body_is_read")
+		}
 		body, _ := io.ReadAll(resp2.Body)
-		want := sentBody
+		want := keepBody
 		if len(want) > 1024 {
 			want = want[:1024]
 		}
@@ -537,8 +549,29 @@ func checkClientRequest(c ClientHSCase, raw []byte, o *Obs) error {
 	if h := p.get("Host"); len(h) != 1 || !wsref.EqualFoldASCII(h[0], wantHost) {
 		return fmt.Errorf("Host header %q, want %q", h, wantHost)
 	}
+	// a caller header spelled like a protocol-owned one but in another case
+	// ("upgrade": "h2c") is a different map key; what becomes of it is not
+	// stated - it may be refused or sent along - but it must not REPLACE what
+	// the protocol needs
+	sloppy := func(name string) []string {
+		for k, vs := range c.Header {
+			if k != http.CanonicalHeaderKey(name) && strings.EqualFold(k, name) {
+				return vs
+			}
+		}
+		return nil
+	}
 	one := func(name, want string) error {
 		v := p.get(name)
+		if extra := sloppy(name); extra != nil {
+			o.Class("caller_header_spelled_like_an_owned_one")
+			for _, x := range v {
+				if wsref.EqualFoldASCII(x, want) {
+					return nil
+				}
+			}
+			return fmt.Errorf("the caller's header %q (another spelling of %s) replaced the protocol's own: request carries %s: %q, the handshake needs %q", extra, name, name, v, want)
+		}
 		if len(v) != 1 {
 			return fmt.Errorf("%d %s headers in the request", len(v), name)
 		}
@@ -602,6 +635,9 @@ func checkClientRequest(c ClientHSCase, raw []byte, o *Obs) error {
 			continue
 		}
 		got := p.get(k)
+		if k != http.CanonicalHeaderKey(k) {
+			continue // see sloppy above
+		}
 		if k == "Cookie" {
 			// net/http may join several cookie values on one line
 			joined := strings.Join(got, "; ")
